@@ -1,6 +1,7 @@
 package main
 
 import (
+	"path/filepath"
 	"sync"
 	"golang.org/x/tools/go/ssa"
 	"encoding/json"
@@ -58,6 +59,22 @@ func main() {
 	fnOf := map[string]*ssa.Function{}
 	if *frame {
 		results = append(results, e.frameCheck())
+	}
+	if !*frame {
+		for _, c := range e.orphans {
+			rel, _ := filepath.Rel(e.repo, c.PkgDir)
+			pk := filepath.Base(c.PkgDir)
+			if rel == "." {
+				pk = "lucene"
+			}
+			name := pk + "." + c.FuncName
+			if re != nil && !re.MatchString(name) {
+				continue
+			}
+			ob := &Obligation{Func: name, Name: name + "/post/contract-without-function", Short: "contract-without-function", Status: "failed", Solver: "static",
+				Info: "the contract file has a contract for " + c.FuncName + ", but the package has no such function any more (renamed, removed, or its receiver changed): what the contract states is not established", Props: c.Props}
+			results = append(results, &FuncResult{Func: name, Key: name, HasContract: true, Props: c.Props, Obligations: []*Obligation{ob}})
+		}
 	}
 	if !*frame && !*list && (re == nil || *cost) {
 		cr := e.costCheck()
